@@ -333,7 +333,7 @@ func checkSkipFromIndexAbsentOutput(p *core.Prog, r *core.Report, rule string) {
 	fn := p.Func(pkgExec, "skipFromIndex")
 	r.Touch(core.FuncName(fn))
 	var get ssa.Instruction
-	core.Instrs(fn, func(in ssa.Instruction) {
+	core.InstrsDeep(fn, func(in ssa.Instruction) { // (fetching the index module's output may be a helper)
 		if c := core.CalleeOf(in); c != nil && c.Name() == "Get" {
 			get = in
 		}
@@ -374,17 +374,19 @@ func checkSkipFromIndexAbsentOutput(p *core.Prog, r *core.Report, rule string) {
 	skipKeys := func(in ssa.Instruction) bool { c := core.CalleeOf(in); return c != nil && c.Name() == "SkipFromKeys" }
 	ok := len(notFound) > 0
 	for _, e := range notFound {
-		b := e.From.Succs[e.Idx]
-		q := core.PathQuery{Fn: fn}
-		if _, reach := q.CanReach(b.Instrs[0], func(x ssa.Instruction) bool { _, isP := x.(*ssa.Panic); return isP }); reach {
+		e := e
+		// from the test, over the not-found edge only (the edge may lead straight to a return of the helper that fetches)
+		q := core.PathQuery{Fn: fn, CutEdge: func(x core.Edge) bool { return x.From == e.From && x.Idx != e.Idx }}
+		from := e.From.Instrs[len(e.From.Instrs)-1]
+		if _, reach := q.CanReach(from, func(x ssa.Instruction) bool { _, isP := x.(*ssa.Panic); return isP }); reach {
 			ok = false
 		}
-		if _, reach := q.CanReach(b.Instrs[0], skipKeys); !reach && !skipKeys(b.Instrs[0]) {
+		if _, reach := q.CanReach(from, skipKeys); !reach {
 			ok = false
 		}
 	}
 	// a panic on the error of Get is only reachable when the error is NOT ErrNotFound
-	for _, e := range errNonNilEdges(fn, get) {
+	for _, e := range errNonNilEdges(get.Parent(), get) {
 		q := core.PathQuery{Fn: fn, CutEdge: func(x core.Edge) bool {
 			for _, nf := range notFound {
 				if x.From == nf.From && x.Idx == 1-nf.Idx {
